@@ -732,10 +732,12 @@ def _run(ctx):
         if kind == 'close' or info:       # bytes really moved (an EOF read again and again is not progress)
             sio['n'] += 1
         if kind == 'recv' and info and looks_like_tls(bytes(info)):
-            # the server tests the first read of EVERY message for a TLS / SSL record, also of the bytes that follow a complete request:
-            # a read that begins like one excuses a close (R7), wherever in the stream it is
+            # the server tests the first read of EVERY message for a TLS / SSL record, also of the bytes that follow a complete request: a read
+            # that begins like one while the server holds no partly received message for the connection excuses a close (R7); a continuation
+            # read in mid-message does not.  "Holds a partly received message" is read off HTTP._buffers (the parser table the statement's last
+            # clause talks about) at the moment of the recv(): every earlier read event has been handled by then.
             c = by_addr.get(getattr(sock, 'sim_peer', None))
-            if c is not None:
+            if c is not None and sock not in srv.http._buffers:
                 c.tls_like_read = True
     NET.oplog = _oplog
 
